@@ -240,12 +240,14 @@ def parse_group(ctx):
         gsx = guard_strings(b, bb, se)
         capt = [g for g in gsx if re.match(r"^!?v\d+$", g) or re.match(r"^!?argvar", g)]
         par = any(("variant(v" in g and "=Some" in g) or re.match(r"^isSome\(v\d+\)$", g) for g in gsx)
+        # the "inside parentheses" fact may as well be a second boolean local (has_paren) next to `capturing`
+        par = par or len({g.lstrip("!") for g in capt}) >= 2
         _rec(d, "closed-only-if-capturing", bool(capt) and par, "captures.insert is not guarded by `capturing` (a closing non-capturing group would mark the next group number as closed: '(?:a)(b\\1)' accepted); guards %s" % sorted(gsx)[:4], b.loc(bb))
     for k in ("toplevel|end-program", "close-paren-required", "capture|numbered-at-open", "capture|closed-after-paren", "noncapturing|no-capture", "closed-only-if-capturing"):
         if k not in d:
             d[k] = [False, "parse_expr lost its %s clause" % k, b.loc()]
     # alternation: Choice::new(branches collected in push order)
-    ch = [1 for p, gs, r in paths if "Choice::new(Iterator::collect(" in r or "Choice::new(Vec::new()" in strip_ver(r)]
+    ch = call_sites(b, lambda r: r.endswith("op_choice::Choice::new"))
     _rec(d, "choice-in-source-order", bool(ch) and not call_sites(b, lambda r: r.endswith("::rev") or r.endswith("::reverse") or r.endswith("::sort")), "several branches must become Choice::new(branches) in the order parsed", b.loc())
     return _emit(d)
 
